@@ -329,6 +329,74 @@ def gen_scaling(repo):
         return ("(* np.iinfo of the X, Y, Z dimensions of every point format *)\n"
                 f"Definition gen_coord_min : Z := {py2v.z(lo)}.\nDefinition gen_coord_max : Z := {py2v.z(hi)}.\n")
     o.add("coord_limits", limits)
+
+    def writer_header():
+        """LasWriter.__init__: what the writer keeps of the header it is given. `deepcopy(header)`: its own scale/offset arrays;
+        the object itself or a shallow copy: the caller's arrays (an in-place edit of the caller's header shows in the writer)."""
+        w = py2v.parse(repo, "laspy/laswriter.py")
+        cls = py2v.find_class(w, "LasWriter")
+        fn = py2v.find_func(cls, "__init__")
+        assigns = [s for s in ast.walk(fn) if isinstance(s, ast.Assign) and any(ast.unparse(t) == "self.header" for t in s.targets)]
+        if len(assigns) != 1:
+            raise Untranslatable(f"LasWriter.__init__: {len(assigns)} assignments to self.header")
+        rhs = ast.unparse(assigns[0].value)
+        # nothing else may re-point the scaling arrays of the writer's header
+        for s in ast.walk(fn):
+            if isinstance(s, ast.Assign):
+                for t in s.targets:
+                    tt = ast.unparse(t)
+                    if tt.startswith("self.header.") and any(k in tt for k in ("scale", "offset")):
+                        raise Untranslatable(f"LasWriter.__init__ assigns {tt}")
+        imports = {a.asname or a.name: (n.module, a.name) for n in ast.walk(w) if isinstance(n, ast.ImportFrom) for a in n.names}
+        if rhs == "deepcopy(header)" and imports.get("deepcopy") == ("copy", "deepcopy"):
+            b = "true"
+        elif rhs == "copy.deepcopy(header)":
+            b = "true"
+        elif rhs in ("header", "copy(header)", "copy.copy(header)"):
+            b = "false"
+        else:
+            raise Untranslatable(f"LasWriter.__init__: self.header = {rhs}")
+        # write_points / close must use self.header's scaling
+        wp = py2v.find_func(cls, "write_points")
+        txt = ast.unparse(wp)
+        if "points.change_scaling(scales=self.header.scales, offsets=self.header.offsets)" not in txt:
+            raise Untranslatable("LasWriter.write_points: the record is not rescaled to self.header.scales / self.header.offsets")
+        return ("(* LasWriter.__init__: self.header = deepcopy(header) - the writer has its own scale/offset arrays (false: it shares the caller's) *)\n"
+                f"Definition gen_writer_copies_header : bool := {b}.\n")
+    o.add("writer_header", writer_header)
+
+    def record_setitem():
+        """PackedPointRecord.__setitem__ with a dimension name: the value goes through the dimension's view
+        (`self[key][:] = value`), whatever the value is; ScaledArrayView.__setitem__ takes a view value by its scaled values"""
+        cls = py2v.find_class(rec, "PackedPointRecord")
+        fn = py2v.find_func(cls, "__setitem__")
+        found = None
+        for s in ast.walk(fn):
+            if isinstance(s, ast.If) and ast.unparse(s.test) == "isinstance(key, str)":
+                found = s
+        if found is None:
+            raise Untranslatable("PackedPointRecord.__setitem__: no `if isinstance(key, str)`")
+        body = [ast.unparse(x) for x in found.body]
+        if body != ["self[key][:] = value"]:
+            raise Untranslatable(f"PackedPointRecord.__setitem__: a named dimension is not assigned by self[key][:] = value but by {body}")
+        vcls = py2v.find_class(dims, "ScaledArrayView")
+        vfn = py2v.find_func(vcls, "__setitem__")
+        conv = [s for s in vfn.body if isinstance(s, ast.If) and ast.unparse(s.test) == "isinstance(value, ScaledArrayView)"]
+        if len(conv) != 1 or [ast.unparse(x) for x in conv[0].body] not in (["value = np.array(value)"], ["value = np.asarray(value)"],
+                                                                            ["value = value.scaled_array()"]) or conv[0].orelse:
+            raise Untranslatable("ScaledArrayView.__setitem__: a ScaledArrayView value is not taken by its scaled values")
+        for s in ast.walk(vfn):
+            if isinstance(s, ast.Attribute) and ast.unparse(s) == "value.array":
+                raise Untranslatable("ScaledArrayView.__setitem__ reads value.array (the stored integers of the value)")
+        sfn = py2v.find_func(py2v.find_class(rec, "ScaleAwarePointRecord"), "__setattr__")
+        first = sfn.body[0]
+        if not (isinstance(first, ast.If) and ast.unparse(first.test) == "key in ('x', 'y', 'z')"
+                and [ast.unparse(x) for x in first.body] == ["self[key][:] = value"]):
+            raise Untranslatable("ScaleAwarePointRecord.__setattr__: x, y, z are not assigned by self[key][:] = value")
+        return ("(* PackedPointRecord.__setitem__(name) and ScaleAwarePointRecord.__setattr__(x|y|z): self[key][:] = value; "
+                "ScaledArrayView.__setitem__ converts a view value to its scaled values *)\n"
+                "Definition gen_assign_by_scaled_values : bool := true.\n")
+    o.add("record_setitem", record_setitem)
     return o
 
 
